@@ -749,7 +749,15 @@ func (fr *Frame) numberSites() {
 	}
 	var ss []site
 	for bi, b := range fr.fn.Blocks {
+		lastPos := token.NoPos
 		for ii, in := range b.Instrs {
+			if in.Pos().IsValid() {
+				lastPos = in.Pos()
+			}
+			effPos := in.Pos()
+			if !effPos.IsValid() {
+				effPos = lastPos // instructions without a position sort with their predecessor
+			}
 			var kinds []string
 			switch x := in.(type) {
 			case *ssa.IndexAddr, *ssa.Index:
@@ -793,20 +801,14 @@ func (fr *Frame) numberSites() {
 				kinds = []string{"nilmap"}
 			}
 			for _, k := range kinds {
-				ss = append(ss, site{in, k, in.Pos(), bi, ii})
+				ss = append(ss, site{in, k, effPos, bi, ii})
 			}
 		}
 	}
 	sort.SliceStable(ss, func(i, j int) bool {
 		a, b := ss[i], ss[j]
 		if a.pos != b.pos {
-			if !a.pos.IsValid() || !b.pos.IsValid() {
-				if a.bi != b.bi {
-					return a.bi < b.bi
-				}
-				return a.ii < b.ii
-			}
-			return a.pos < b.pos
+			return a.pos < b.pos // a total order: NoPos (0) first
 		}
 		if a.bi != b.bi {
 			return a.bi < b.bi
